@@ -10,9 +10,10 @@ import copy as _copy
 import hashlib
 import math
 import os
+import time
 import z3
 from . import sym
-from .sym import (Unsupported, Infeasible, StopPath, PATH, is_sym, truth, to_real, to_num, s_add, s_sub, s_mul, s_div,
+from .sym import (Unsupported, BudgetExhausted, Infeasible, StopPath, PATH, is_sym, truth, to_real, to_num, s_add, s_sub, s_mul, s_div,
                   s_floordiv, s_mod, s_pow, s_abs, s_cmp, s_ite, s_min, s_max, s_and, s_or, s_not, s_neg, s_round,
                   s_floor, s_ceil, as_bool, concretize_int)
 from .tensor import Tensor, s_trunc
@@ -824,6 +825,9 @@ class Interp:
 
     def stmt(self, s, env, mod=None):
         t = type(s)
+        self._nstmt = getattr(self, '_nstmt', 0) + 1
+        if self._nstmt % 128 == 0 and getattr(self, 'deadline', None) is not None and time.time() > self.deadline:
+            raise BudgetExhausted()
         if t is ast.Expr:
             if isinstance(s.value, ast.Constant):
                 return
@@ -1477,7 +1481,7 @@ class Interp:
         if isinstance(x, Tensor) and x.numel() == 1:
             x = x.els[0]
         if is_sym(x):
-            if z3.is_int(x) and not PATH_concrete():
+            if z3.is_int(x) and not PATH_concrete() and PATH().few_values(z3.simplify(x)):
                 x = concretize_int(x)          # a symbolic integer turned into text (a name, a key): one path per feasible value
             else:
                 return '<sym>'
